@@ -2,6 +2,7 @@ package checks
 
 import (
 	"fmt"
+	"math"
 	"strings"
 
 	"google.golang.org/protobuf/proto"
@@ -237,3 +238,6 @@ func valDiff(here string, a, b model.Val) string {
 }
 
 func nil2global() *protoregistry.Types { return protoregistry.GlobalTypes }
+
+func float32frombits(b uint32) float32 { return math.Float32frombits(b) }
+func float64frombits(b uint64) float64 { return math.Float64frombits(b) }
